@@ -38,7 +38,7 @@ REAL = ['py4hw.transpilation.python2verilog_transpilation', 'py4hw.rtl_generatio
 STUB = ['Verilog side: dsim/vsim executes the emitted text', 'random inputs (protocol-agnostic) as the environment']
 ASSUMPTIONS = ['vsim reading of IEEE 1364-2005', 'generated programs keep every intermediate value in [0, 2**31) and give every arithmetic '
                'sub-expression a 32-bit context (literal, integer variable or constructor constant)']
-PROBES = ['second_instance_other_constants', 'wide_ports', 'lib_block', 'random_seq', 'random_comb', 'unsupported_refused', 'unsupported_accepted_equivalent', 'state_compared', 'match_case', 'elif_chain']
+PROBES = ['parameters', 'second_instance_other_constants', 'wide_ports', 'lib_block', 'random_seq', 'random_comb', 'unsupported_refused', 'unsupported_accepted_equivalent', 'state_compared', 'match_case', 'elif_chain']
 
 _TMP = None
 
@@ -268,6 +268,8 @@ def run(scn, log, st):
             st.probe('random_seq' if scn['prog']['seq'] else 'random_comb')
             if any(w > 32 for n, w in scn['prog']['ins']):
                 st.probe('wide_ports')
+            if 'getParameterValue' in scn['prog']['src']:
+                st.probe('parameters')
             if 'match ' in scn['prog']['src']:
                 st.probe('match_case')
             if 'elif ' in scn['prog']['src']:
